@@ -1041,6 +1041,14 @@ impl<'p> Interp<'p> {
                         FPart::Text(t) => s.push_str(t),
                         FPart::Expr(x) => {
                             let v = self.eval(x)?;
+                            // the harness registers `to_string` for its copy type K: a host
+                            // call (logged) that runs when the part is converted, i.e. before
+                            // the next part is evaluated
+                            if let V::K(k) = v {
+                                self.log.push(Ev::K(k));
+                                s.push_str(&format!("K{k}"));
+                                continue;
+                            }
                             match v.display() {
                                 Some(d) => s.push_str(&d),
                                 None => return stuck("display of aggregate"),
